@@ -439,6 +439,14 @@ def Crossed {α : Type} (layers : List (Arr2 α)) (l0 s0 l1 s1 : Nat) : Prop :=
   ∀ (i : Nat) (l : Arr2 α), layers[i]? = some l →
     l.rows = (if i % 2 = 0 then l0 else l1) ∧ l.cols = (if i % 2 = 0 then s0 else s1)
 
+/-- a stack with the lines of a crossed stack whose layers may differ in length: even layers have `l0` lines, odd layers
+`l1`, and EVERY layer holds the warm-up `w` and the samples the reconstruction reads from it (`l1 * M` for even layers,
+`l0 * M` for odd ones) - "s exceeding the needed length by any amount", layer by layer -/
+def Ragged {α : Type} (layers : List (Arr2 α)) (l0 l1 M w : Nat) : Prop :=
+  2 ≤ layers.length ∧
+  ∀ (i : Nat) (l : Arr2 α), layers[i]? = some l →
+    l.rows = (if i % 2 = 0 then l0 else l1) ∧ w + (if i % 2 = 0 then l1 else l0) * M ≤ l.cols
+
 /-- effective offset list of the layers: a zero is prepended when the first offset is not zero -/
 def effList (offs : List Nat) : List Nat :=
   match offs with
